@@ -64,7 +64,8 @@ def run_admin(cmd, kind, opt, stdin_lines, typed, seed, device=None, script=None
             raise EOFError("getpass exhausted")
         return typed_left.pop(0).decode("latin1")
     misc.getpass = fake_getpass
-    misc.time.sleep = lambda s: None
+    import types
+    misc.time = types.SimpleNamespace(sleep=lambda s: None)
     onboard.gen_seed = lambda: seed
     # on Ledger, onboarding continues with the attestation setup: stop at the "press Enter" prompt
     stdin = Stdin(stdin_lines)
